@@ -176,3 +176,13 @@ _run_hi16 = run
 def run(ctx, rep, tier):
     _run_hi16(ctx, rep, tier)
     _wait_scope_and_optional_entry(ctx, rep, tier)
+
+
+_run_r6 = run
+
+
+def run(ctx, rep, tier):
+    _run_r6(ctx, rep, tier)
+    from .shared import delegate
+    delegate(ctx, rep, tier, "C06", ("C06.b", "C06.g"), "C16.k", "the restart of a wait is stored: every transition that may end a feed() stores the state the machine is in afterwards, so that the next chunk resumes in the "
+             "pattern's start state and not in the abandoned partial match")
